@@ -122,6 +122,7 @@ type TermStore struct {
 	order []string           // declaration order of symbols
 	ufs   map[string]*UFDecl // declared UFs
 	uford []string
+	big   map[string]bool // string symbols whose length is abstracted by the UF len! (never materialised by the solver)
 }
 
 type UFDecl struct {
@@ -131,7 +132,7 @@ type UFDecl struct {
 }
 
 func NewTermStore() *TermStore {
-	return &TermStore{tab: map[string]*Term{}, syms: map[string]*Term{}, ufs: map[string]*UFDecl{}}
+	return &TermStore{tab: map[string]*Term{}, syms: map[string]*Term{}, ufs: map[string]*UFDecl{}, big: map[string]bool{}}
 }
 
 func (ts *TermStore) mk(op Op, sort Sort, u uint64, i int64, s string, args ...*Term) *Term {
@@ -569,6 +570,8 @@ func nonNegSmallInt(t *Term) bool {
 	switch t.op {
 	case OSLen:
 		return true
+	case OApp:
+		return t.s == "len!"
 	case OConst:
 		return t.sort.K == SInt && t.i >= 0 && t.i < 1<<40
 	case OIAdd:
@@ -753,7 +756,7 @@ func (ts *TermStore) Bv2Int(a *Term) *Term { // unsigned
 	if a.IsConst() {
 		return ts.Int(int64(a.u))
 	}
-	if a.op == OInt2Bv && a.args[0].op == OSLen {
+	if a.op == OInt2Bv && nonNegSmallInt(a.args[0]) {
 		return a.args[0] // lengths are small non-negative
 	}
 	return ts.mk(OBv2Int, IntSort, 0, 0, "", a)
@@ -762,7 +765,7 @@ func (ts *TermStore) SBv2Int(a *Term) *Term { // signed
 	if a.IsConst() {
 		return ts.Int(a.SVal())
 	}
-	if a.op == OInt2Bv && a.args[0].op == OSLen {
+	if a.op == OInt2Bv && nonNegSmallInt(a.args[0]) {
 		return a.args[0]
 	}
 	return ts.mk(OSBv2Int, IntSort, 0, 0, "", a)
@@ -792,6 +795,9 @@ func (ts *TermStore) SLen(a *Term) *Term {
 	}
 	if a.op == OSUnit {
 		return ts.Int(1)
+	}
+	if a.op == OSym && ts.big[a.s] {
+		return ts.App("len!", IntSort, a)
 	}
 	return ts.mk(OSLen, IntSort, 0, 0, "", a)
 }
